@@ -90,3 +90,19 @@ package blockchain
 //@   assert@call PostData: arg3 == ret1(getPushData) && arg2 == ret0(getPushData) && ret2(getPushData) == nil && arg1 == subscribe
 //@   assert@call setLastPushSeq: ret(PostData) == nil && arg2 == ret1(getPushData) && arg1 == subscribe.Name
 //@   loop 0 invariant true
+
+// ---- C14: the block store applies the plugins' records literally: nil value = delete, else write --------
+//@ pure func (*BlockStore).getLocalKV
+//@ pure func (*BlockStore).getDelLocalKV
+//@ func (*BlockStore).AddTxs [C14]
+//@   opt safety=assumed overflow=assumed
+//@   assert@call Delete: arg0 == storeBatch && isnil(ret0(getLocalKV).KV[i].Value) && arg1 == ret0(getLocalKV).KV[i].Key
+//@   assert@call Set: arg0 == storeBatch && !isnil(ret0(getLocalKV).KV[i].Value) && arg1 == ret0(getLocalKV).KV[i].Key && arg2 == ret0(getLocalKV).KV[i].Value
+//@   ensures result == nil <==> ret1(getLocalKV) == nil
+//@   loop 0 invariant 0 <= i
+//@ func (*BlockStore).DelTxs [C14]
+//@   opt safety=assumed overflow=assumed
+//@   assert@call Delete: arg0 == storeBatch && isnil(ret0(getDelLocalKV).KV[i].Value) && arg1 == ret0(getDelLocalKV).KV[i].Key
+//@   assert@call Set: arg0 == storeBatch && !isnil(ret0(getDelLocalKV).KV[i].Value) && arg1 == ret0(getDelLocalKV).KV[i].Key && arg2 == ret0(getDelLocalKV).KV[i].Value
+//@   ensures result == nil <==> ret1(getDelLocalKV) == nil
+//@   loop 0 invariant 0 <= i
